@@ -10,13 +10,62 @@ package influxql
 //@ globalinv errBadString != nil && errBadEscape != nil && errBadString != errBadEscape
 
 // AST well-formedness (G3): what the parser establishes for every node it
-// returns. Assumed for objects that exist when an operation on a parsed
-// statement starts.
-//@ typeinv SubQuery : self.Statement != nil
+// returns (and Reduce / the rewriters preserve). Assumed for objects that exist
+// when an operation on a parsed statement starts; the parser side is C04.
+//@ typeinv Query : forall(i, 0, len(self.Statements), notnil(self.Statements[i]))
 //@ typeinv SelectStatement : len(self.Sources) >= 1 && len(self.Fields) >= 1 && (self.Target != nil ==> self.Target.Measurement != nil)
+//@ typeinv SelectStatement : forall(i, 0, len(self.Fields), self.Fields[i] != nil)
+//@ typeinv SelectStatement : forall(i, 0, len(self.Dimensions), self.Dimensions[i] != nil)
+//@ typeinv SelectStatement : forall(i, 0, len(self.Sources), notnil(self.Sources[i]) && typeis(self.Sources[i], *Measurement, *SubQuery))
+//@ typeinv SelectStatement : forall(i, 0, len(self.SortFields), self.SortFields[i] != nil)
+//@ typeinv SelectStatement : (self.Condition != nil ==> notnil(self.Condition) && spec_isExprNode(self.Condition))
 //@ typeinv Target : self.Measurement != nil
+//@ typeinv Field : notnil(self.Expr) && spec_isExprNode(self.Expr)
+//@ typeinv Dimension : notnil(self.Expr) && spec_isExprNode(self.Expr)
+//@ typeinv SubQuery : self.Statement != nil
+//@ typeinv Call : forall(i, 0, len(self.Args), notnil(self.Args[i]) && spec_isExprNode(self.Args[i]))
+//@ typeinv BinaryExpr : notnil(self.LHS) && notnil(self.RHS) && spec_isExprNode(self.LHS) && spec_isExprNode(self.RHS)
+//@ typeinv BinaryExpr : (self.Op == EQREGEX || self.Op == NEQREGEX) ==> istype(self.RHS, *RegexLiteral)
+//@ typeinv ParenExpr : notnil(self.Expr) && spec_isExprNode(self.Expr)
+//@ typeinv RegexLiteral : self.Val != nil
 //@ typeinv ExplainStatement : self.Statement != nil
 //@ typeinv CreateContinuousQueryStatement : self.Source != nil && self.Source.Target != nil
+//@ typeinv ShowSeriesStatement : forall(i, 0, len(self.Sources), notnil(self.Sources[i]) && typeis(self.Sources[i], *Measurement, *SubQuery))
+//@ typeinv DropSeriesStatement : forall(i, 0, len(self.Sources), notnil(self.Sources[i]) && typeis(self.Sources[i], *Measurement, *SubQuery))
+//@ typeinv DeleteSeriesStatement : forall(i, 0, len(self.Sources), notnil(self.Sources[i]) && typeis(self.Sources[i], *Measurement, *SubQuery))
+//@ typeinv ShowSeriesCardinalityStatement : forall(i, 0, len(self.Sources), notnil(self.Sources[i]) && typeis(self.Sources[i], *Measurement, *SubQuery))
+//@ typeinv ShowMeasurementCardinalityStatement : forall(i, 0, len(self.Sources), notnil(self.Sources[i]) && typeis(self.Sources[i], *Measurement, *SubQuery))
+//@ typeinv ShowTagKeysStatement : forall(i, 0, len(self.Sources), notnil(self.Sources[i]) && typeis(self.Sources[i], *Measurement, *SubQuery))
+//@ typeinv ShowTagKeyCardinalityStatement : forall(i, 0, len(self.Sources), notnil(self.Sources[i]) && typeis(self.Sources[i], *Measurement, *SubQuery))
+//@ typeinv ShowTagValuesStatement : forall(i, 0, len(self.Sources), notnil(self.Sources[i]) && typeis(self.Sources[i], *Measurement, *SubQuery))
+//@ typeinv ShowTagValuesCardinalityStatement : forall(i, 0, len(self.Sources), notnil(self.Sources[i]) && typeis(self.Sources[i], *Measurement, *SubQuery))
+//@ typeinv ShowFieldKeyCardinalityStatement : forall(i, 0, len(self.Sources), notnil(self.Sources[i]) && typeis(self.Sources[i], *Measurement, *SubQuery))
+//@ typeinv ShowFieldKeysStatement : forall(i, 0, len(self.Sources), notnil(self.Sources[i]) && typeis(self.Sources[i], *Measurement, *SubQuery))
+//@ typeinv ShowSeriesStatement : forall(i, 0, len(self.SortFields), self.SortFields[i] != nil)
+//@ typeinv ShowMeasurementsStatement : forall(i, 0, len(self.SortFields), self.SortFields[i] != nil)
+//@ typeinv ShowTagKeysStatement : forall(i, 0, len(self.SortFields), self.SortFields[i] != nil)
+//@ typeinv ShowTagValuesStatement : forall(i, 0, len(self.SortFields), self.SortFields[i] != nil)
+//@ typeinv ShowFieldKeysStatement : forall(i, 0, len(self.SortFields), self.SortFields[i] != nil)
+//@ typeinv ShowSeriesCardinalityStatement : forall(i, 0, len(self.Dimensions), self.Dimensions[i] != nil)
+//@ typeinv ShowMeasurementCardinalityStatement : forall(i, 0, len(self.Dimensions), self.Dimensions[i] != nil)
+//@ typeinv ShowTagKeyCardinalityStatement : forall(i, 0, len(self.Dimensions), self.Dimensions[i] != nil)
+//@ typeinv ShowTagValuesCardinalityStatement : forall(i, 0, len(self.Dimensions), self.Dimensions[i] != nil)
+//@ typeinv ShowFieldKeyCardinalityStatement : forall(i, 0, len(self.Dimensions), self.Dimensions[i] != nil)
+//@ typeinv ShowSeriesStatement : (self.Condition != nil ==> notnil(self.Condition))
+//@ typeinv DropSeriesStatement : (self.Condition != nil ==> notnil(self.Condition))
+//@ typeinv DeleteSeriesStatement : (self.Condition != nil ==> notnil(self.Condition))
+//@ typeinv ShowSeriesCardinalityStatement : (self.Condition != nil ==> notnil(self.Condition))
+//@ typeinv ShowMeasurementCardinalityStatement : (self.Condition != nil ==> notnil(self.Condition))
+//@ typeinv ShowMeasurementsStatement : (self.Condition != nil ==> notnil(self.Condition))
+//@ typeinv ShowTagKeysStatement : (self.Condition != nil ==> notnil(self.Condition))
+//@ typeinv ShowTagKeyCardinalityStatement : (self.Condition != nil ==> notnil(self.Condition))
+//@ typeinv ShowTagValuesStatement : (self.Condition != nil ==> notnil(self.Condition))
+//@ typeinv ShowTagValuesCardinalityStatement : (self.Condition != nil ==> notnil(self.Condition))
+//@ typeinv ShowFieldKeyCardinalityStatement : (self.Condition != nil ==> notnil(self.Condition))
+//@ typeinv ShowTagValuesStatement : notnil(self.TagKeyExpr)
+//@ typeinv ShowTagValuesCardinalityStatement : notnil(self.TagKeyExpr)
+//@ typeinv ShowTagKeysStatement : (self.TagKeyExpr != nil ==> notnil(self.TagKeyExpr))
+//@ typeinv ShowMeasurementsStatement : (self.Source != nil ==> notnil(self.Source))
 
 // ---------------------------------------------------------------- C03 tables
 
